@@ -305,10 +305,10 @@ type lifeGhost struct {
 	Income  map[string]sdk.Dec // reference: integral of price x bytes x blocks per provider
 	Claimed map[string]sdk.Int // observed market->provider payouts
 	// RenewMig: renewal orders created while one of the listed shards was a pending migration (pins D20)
-	RenewMig map[uint64]bool
-	Pending   map[uint64]pendInfo // C05: orders without a completed shard
-	PaidUntil map[uint64]int64    // C11: open shards -> last paid height
-	ShardData map[uint64]string
+	RenewMig             map[uint64]bool
+	Pending              map[uint64]pendInfo // C05: orders without a completed shard
+	PaidUntil            map[uint64]int64    // C11: open shards -> last paid height
+	ShardData            map[uint64]string
 	MaxOrder, MaxShard   uint64 // C16
 	SeenOrder, SeenShard bool
 }
